@@ -233,6 +233,48 @@ TG_TIERS = (
 )
 
 
+def _check_filled_in_place(case):
+    """operand B was FILLED IN PLACE (insertEntry on an empty tier, entry by entry - how tiers are built from a forced alignment or a CSV) with times
+    of an exact type (Fraction, Decimal-free: int and Fraction) that insertEntry stores as given: every set operation gives what it gives for the
+    same tier built by the constructor (which converts to float), up to the float value of each time"""
+    kind, ai, bi, typ, which = case
+    A_E = FILLED_A[ai]
+    B_E = FILLED_B[bi]
+    conv = {"fraction": lambda x: F(str(x)), "int-or-fraction": lambda x: int(x) if float(x).is_integer() else F(str(x)), "float": float}[typ]
+
+    def build(entries, inplace):
+        if not inplace:
+            return (IT if kind == "I" else PT)("b", list(entries), 0.0, 6.0)
+        t = (IT if kind == "I" else PT)("b", [], 0.0, 6.0)
+        for e in entries:
+            t.insertEntry(tuple(conv(x) for x in e[:-1]) + (e[-1],), "error", "silence")
+        return t
+
+    def run(receiver_in_place, arg_in_place):
+        a = build(A_E, receiver_in_place)
+        b = build(B_E, arg_in_place)
+        a = a.new("a") if not receiver_in_place else a
+        ops = {"union": lambda: a.union(b), "difference": lambda: a.difference(b), "intersection": lambda: a.intersection(b), "mergeLabels": lambda: a.mergeLabels(b)}
+        if kind == "P":
+            ops = {"union": ops["union"]}
+        out = {}
+        for nm, f in ops.items():
+            st, r, _ = call(f)
+            out[nm] = ("raised", type(r).__name__) if st == "exc" else [tuple(float(x) for x in e[:-1]) + (e[-1],) for e in r.entries]
+        return out
+    want = run(False, False)
+    got = run(which in ("receiver", "both"), which in ("argument", "both"))
+    for nm in want:
+        if got[nm] != want[nm]:
+            return len(want), "!", None, [Viol("operand-filled-in-place", f"{nm} with the {which} filled in place by insertEntry with {typ} times, A={A_E} B={B_E}: "
+                                                                          f"{got[nm]!r}; with tiers built by the constructor: {want[nm]!r}")]
+    return len(want), "ok", (kind, typ, which), []
+
+
+FILLED_A = (((1.0, 4.0, "a"),), ((0.5, 2.0, "a"), (2.0, 4.5, "b")), ((0.2, 0.7, "a"), (3.4, 5.0, "b")))   # no start shared with B: a tie would be broken by the exact values
+FILLED_B = (((0.1, 3.0, "x"), (3.5, 5.0, "y")), ((0.1, 1.5, "x"), (1.7, 3.3, "y"), (3.9, 5.9, "z")), ((2.0, 3.0, "x"),))
+
+
 def _check_merge_tiers(case):
     order, names, preserve = case[:3]
     form = case[3] if len(case) > 3 else "list"  # the FORM of the selection: list, tuple, one-shot iterator, generator
@@ -494,6 +536,13 @@ def parts(tier):
                         for form in ("tuple", "iter", "gen"):
                             yield (order, tuple(sub), False, form)
 
+    ps.append(InputPart("setops-operands-filled-in-place",
+                        lambda: (("I", ai, bi, typ, which) for ai in range(len(FILLED_A)) for bi in range(len(FILLED_B)) for typ in ("fraction", "int-or-fraction", "float")
+                                 for which in ("argument", "receiver", "both")),
+                        _check_filled_in_place,
+                        rule="3 x 3 operand pairs (B's entries overlapping one, two and three entries of A in a row) with the argument, the receiver or both FILLED IN "
+                             "PLACE by insertEntry with times given as Fraction / int / float (insertEntry stores them as given): union, difference, intersection, "
+                             "mergeLabels give what they give for constructor-built tiers, time for time (as floats)", bounds={}))
     ps.append(InputPart("mergeTiers", gen_merge, _check_merge_tiers,
                         rule="textgrids of 1-6 tiers in several orders (one family of tiers with touching entries, one in which every tier overlaps every other, so that the fold order shows in the labels) x every subset (and ordered pair; ordered triples of the overlapping ones) of tier names (as list, tuple, one-shot iterator, "
                              "generator) x preserveOtherTiers: result = preserved tiers in order, then the left fold of union over the "
